@@ -266,13 +266,15 @@ def shared_paths(ws, op, mat):
     return (rp, mf, inp, mat[3], mat[4])
 
 
-def run_history(ctx, ops, mats, fresh, seq, label, ws=None, last_interleaved_with=None):
+def run_history(ctx, ops, mats, fresh, seq, label, ws=None, last_interleaved_with=None, last_variant=None):
     prev = None
     for pos, i in enumerate(seq):
         if fresh[i] is None:
             prev = i
             continue
-        interleaved = (pos + 1 < len(seq) and ctx.rng.random() < 0.15) or (last_interleaved_with is not None and pos == len(seq) - 1)
+        forced = last_variant if pos == len(seq) - 1 else None
+        interleaved = (pos + 1 < len(seq) and ctx.rng.random() < 0.15 and forced is None) or (last_interleaved_with is not None and pos == len(seq) - 1)
+        variant = "interleaved" if interleaved else "plain"
         nxt = seq[pos + 1] if pos + 1 < len(seq) else last_interleaved_with
         if interleaved:
             # a rule set prepared up front: this operation's matcher is built, the NEXT operation of the history is compiled (its
@@ -304,6 +306,16 @@ def run_history(ctx, ops, mats, fresh, seq, label, ws=None, last_interleaved_wit
                                      f"rule {ops[i]['name']}: its Yaml2Regex object was made, then {ops[nxt]['name']} was loaded, then produce_regex() gave "
                                      f"{str(later[1])[:160]!r}; compiled at once it gives {at_once[1][:160]!r}")
                     return False
+        elif forced == "config-reused" or (forced is None and ctx.rng.random() < (0.5 if mats[i][1] else 0.1)):
+            variant = "config-reused"
+            # one MatchConfig object handed to two matcher constructions in a row: both answer like a fresh process
+            ctx.event("ops_with_one_config_object_used_for_two_matchers")
+            rp, mf, inp, binary, (ret, search, oa) = mats[i]
+            rc = real.match_config_reused(rp, inp, binary=binary, ret=ret, search=search, only_addr=oa, macros=list(mf) if mf else mf)
+            if rc[0] == "ok":
+                r = ["ok", rc[1]] if rc[1] == rc[2] else ["ok", {"first_matcher": rc[1], "second_matcher_from_the_same_config_object": rc[2]}]
+            else:
+                r = ["exc", rc[1]]
         elif ws is not None and ctx.rng.random() < 0.4:
             ctx.event("ops_through_shared_paths")
             r = run_op(shared_paths(ws, ops[i], mats[i]))
@@ -320,7 +332,7 @@ def run_history(ctx, ops, mats, fresh, seq, label, ws=None, last_interleaved_wit
             hist = [ops[j]["name"] for j in seq[max(0, pos - 3):pos + 1]]
             ctx.disagreement({"history": [ops[j]["name"] for j in seq[:pos + 1]], "op": ops[i], "fresh": fresh[i], "in_history": r,
                               "random_ops": [o for o in ops if o["name"].startswith("rand-")],
-                              "first_leaked_key": leak, "interleaved_with": ops[nxt]["name"] if interleaved else None},
+                              "first_leaked_key": leak, "interleaved_with": ops[nxt]["name"] if interleaved else None, "variant": variant},
                              f"operation {ops[i]['name']} returned {str(r)[:160]} at position {pos} of a history (...{hist}) but {str(fresh[i])[:160]} "
                              f"when executed first in a fresh process; singleton key differing from current config: {leak}"
                              + (f"; its matcher was built, then {ops[nxt]['name']} was compiled, then it was run" if interleaved else ""))
@@ -375,7 +387,8 @@ def replay(ctx, case):
     fresh = fresh_table(ctx, ws, ops, mats)
     seq = [names.index(nm) for nm in case["history"] if nm in names]
     li = case.get("interleaved_with")
-    run_history(ctx, ops, mats, fresh, seq, "replay", last_interleaved_with=names.index(li) if li in names else None)
+    run_history(ctx, ops, mats, fresh, seq, "replay", last_interleaved_with=names.index(li) if li in names else None,
+                last_variant=case.get("variant") if case.get("variant") == "config-reused" else None)
 
 
 if __name__ == "__main__":
